@@ -366,7 +366,12 @@ func ruleC08Manifest(c *Checker) {
 	}
 	name := p.FuncName(wm)
 	ranged := map[string]bool{}
-	for _, mr := range mapRanges(wm) {
+	var allRanges []mapRange
+	for member := range p.family(wm) {
+		allRanges = append(allRanges, mapRanges(member)...)
+	}
+	sort.Slice(allRanges, func(i, j int) bool { return allRanges[i].Range.Pos() < allRanges[j].Range.Pos() })
+	for _, mr := range allRanges {
 		m := mapDesc(mr.Range.X)
 		ranged[m] = true
 		// the recording instruction: append to a manifest slice or a MapUpdate into a manifest map
@@ -1016,72 +1021,73 @@ func ruleC17Dep(c *Checker) {
 		}
 	})
 	c.check(keyOK, R, name, "recorded under the selected version", p.Pos(site.Pos()), "resolvedRegistry key contains the selected version", "the answer is recorded under a different version than the one selected")
-	// deprecation association
+	// deprecation association (in the resolver or a private helper of it)
 	depOK := false
-	eachInstr(fn, func(in ssa.Instruction) {
-		cl, ok := in.(*ssa.Call)
-		if !ok || calleeObj(cl) == nil || calleeObj(cl).Name() != "Same" {
-			return
-		}
-		argsDep := false
-		for _, a := range cl.Call.Args {
-			if p.backSlice(a, 0)[sel] {
-				argsDep = true
+	var rangedOK, ranged = true, 0
+	for member := range p.family(fn) {
+		eachInstr(member, func(in ssa.Instruction) {
+			cl, ok := in.(*ssa.Call)
+			if !ok || calleeObj(cl) == nil || calleeObj(cl).Name() != "Same" {
+				return
 			}
-		}
-		if !argsDep {
-			return
-		}
-		// the true edge guards the assignment of the Deprecation of the very element whose Version was compared
-		var verBases []ssa.Value
-		for _, a := range cl.Call.Args {
-			for x := range p.backSlice(a, 0) {
-				if fa, ok := x.(*ssa.FieldAddr); ok && fieldOf(fa).Name() == "Version" {
-					verBases = append(verBases, canon(fa.X))
+			argsDep := false
+			for _, a := range cl.Call.Args {
+				if p.backSlice(a, 1)[sel] {
+					argsDep = true
 				}
 			}
-		}
-		t, _ := boolEdges(fn, cl)
-		for _, e := range t {
-			for _, x := range e.To().Instrs {
-				if fa, ok := x.(*ssa.FieldAddr); ok && fieldOf(fa).Name() == "Deprecation" {
-					for _, vb := range verBases {
-						if canon(fa.X) == vb {
-							depOK = true
+			if !argsDep {
+				return
+			}
+			// the true edge guards the use of the Deprecation of the very element whose Version was compared
+			var verBases []ssa.Value
+			for _, a := range cl.Call.Args {
+				for x := range p.backSlice(a, 0) {
+					if fa, ok := x.(*ssa.FieldAddr); ok && fieldOf(fa).Name() == "Version" {
+						verBases = append(verBases, canon(fa.X))
+					}
+				}
+			}
+			t, _ := boolEdges(member, cl)
+			for _, e := range t {
+				for _, x := range e.To().Instrs {
+					if fa, ok := x.(*ssa.FieldAddr); ok && fieldOf(fa).Name() == "Deprecation" {
+						for _, vb := range verBases {
+							if canon(fa.X) == vb {
+								depOK = true
+							}
 						}
 					}
 				}
 			}
-		}
-	})
-	c.check(depOK, R, name, "deprecation of the selected version", p.Pos(site.Pos()), "the recorded deprecation is the one attached to the element whose version is the selected one", "the deprecation note recorded is not tied to the selected version")
-	// the infos searched for that element are the registry's answer on the fresh path and its cached copy on the hit path
-	var rangedOK, ranged = true, 0
-	eachInstr(fn, func(in ssa.Instruction) {
-		fa, ok := in.(*ssa.FieldAddr)
-		if !ok || fieldOf(fa).Name() != "Deprecation" {
-			return
-		}
-		// the element's origin: a slice being ranged/indexed
-		for _, l := range p.origins(fa.X, 0) {
-			_ = l
-		}
-		for v := range p.backSlice(fa.X, 0) {
-			ia, ok := v.(*ssa.IndexAddr)
-			if !ok {
-				continue
+		})
+		// the infos searched are the registry's answer on the fresh path and its cached copy on the hit path
+		eachInstr(member, func(in ssa.Instruction) {
+			fa, ok := in.(*ssa.FieldAddr)
+			if !ok || fieldOf(fa).Name() != "Deprecation" {
+				return
 			}
-			ranged++
-			for _, l := range p.origins(ia.X, 0) {
-				switch {
-				case l.Kind == "lookup" && builderMapOf(l.Base) == "registryPackageVersions":
-				case l.Kind == "field" && l.Field != nil && l.Field.Name() == "Versions":
-				default:
-					rangedOK = false
+			if n, ok := types.Unalias(derefType(fa.X.Type())).(*types.Named); !ok || n.Obj().Name() != "ModulePackageInfo" {
+				return
+			}
+			for v := range p.backSlice(fa.X, 0) {
+				ia, ok := v.(*ssa.IndexAddr)
+				if !ok {
+					continue
+				}
+				ranged++
+				for _, l := range p.origins(ia.X, 2) {
+					switch {
+					case l.Kind == "lookup" && builderMapOf(l.Base) == "registryPackageVersions":
+					case l.Kind == "field" && l.Field != nil && l.Field.Name() == "Versions":
+					default:
+						rangedOK = false
+					}
 				}
 			}
-		}
-	})
+		})
+	}
+	c.check(depOK, R, name, "deprecation of the selected version", p.Pos(site.Pos()), "the recorded deprecation is the one attached to the element whose version is the selected one", "the deprecation note recorded is not tied to the selected version")
 	c.check(ranged > 0 && rangedOK, R, name, "deprecation looked up in the registry's answer on every path", p.Pos(site.Pos()), "the list searched is the response's versions or their cached copy", "on some path (e.g. a cache hit) the list searched for the selected version's deprecation is not the registry's answer (empty / a different list): whether a note is recorded then depends on the order packages were resolved in")
 }
 
@@ -1192,7 +1198,7 @@ func ruleC18DirName(c *Checker) {
 			n++
 			name := p.FuncName(fn)
 			pos := p.Pos(mu.Pos())
-			c.check(fn == openDir, R, name, "writer of Bundle.remotePackageDirs", pos, "written only while loading the manifest", "Bundle.remotePackageDirs is written outside OpenDir")
+			c.check(openDir != nil && p.family(openDir)[fn], R, name, "writer of Bundle.remotePackageDirs", pos, "written only while loading the manifest (OpenDir and its private helpers)", "Bundle.remotePackageDirs is written outside OpenDir")
 			v := mu.Value
 			vpT, _ := condEdges(fn, func(x ssa.Value) bool {
 				cl, ok := x.(*ssa.Call)
@@ -1337,7 +1343,17 @@ func ruleC18Reverse(c *Checker) {
 	}
 	// found flag: success only when a candidate matched
 	matched := false
-	for _, mr := range mapRanges(fn) {
+	var revRanges []mapRange
+	for member := range p.family(fn) {
+		revRanges = append(revRanges, mapRanges(member)...)
+	}
+	// a lookup method of Bundle used only for this purpose also counts
+	for _, ci := range callsIn(fn) {
+		if g := ci.Common().StaticCallee(); g != nil && inBundlePkg(p, g) && g.Signature.Recv() != nil && isNamedT(derefType(g.Signature.Recv().Type()), "Bundle") && (g.Object() == nil || !g.Object().Exported()) {
+			revRanges = append(revRanges, mapRanges(g)...)
+		}
+	}
+	for _, mr := range revRanges {
 		if mapDesc(mr.Range.X) == "remotePackageDirs" {
 			for b := range mr.Body {
 				for _, in := range b.Instrs {
